@@ -411,7 +411,10 @@ class Encoder:
             self.e.cons.append(v.term == BV(n, v.width))
         start = len(self.e.bytes)
         for i in range(n):
-            self.value(m['ty'], '%s[%d]' % (p, i), {}, None, c)
+            s0 = len(self.e.bytes)
+            term = self.value(m['ty'], '%s[%d]' % (p, i), {}, None, c)
+            if getattr(self, 'record_elements', False):
+                self.e.fields.append(('%s[%d]' % (p, i), m['ty'], s0, len(self.e.bytes), term))
         self.e.fields.append((p, m['ty'] + '[' + arr + ']', start, len(self.e.bytes), None))
 
 
@@ -438,7 +441,7 @@ def datetime_valid(x):
     return z3.And(z3.ULT(mi, 60), z3.ULT(h, 24), z3.ULT(mo, 12), z3.ULT(md, mdays), z3.ULT(wd, 7), wd == z3.URem(6 + days, BV(7, 32)))
 
 
-def shapes(corpus, view, container, bounds, seed=0):
+def shapes(corpus, view, container, bounds, seed=0, record_elements=False):
     """generator of (Encoding, chooser) over the covered shapes: baseline, every single-dimension variation, then
     seeded random combinations up to the cap. Infeasible shapes are skipped (decided by the caller's solver)."""
     done = set()
@@ -451,6 +454,7 @@ def shapes(corpus, view, container, bounds, seed=0):
         tried += 1
         ch = Chooser(ov, rng if ov.get('__random__') else None)
         enc = Encoder(corpus, view, bounds, ch)
+        enc.record_elements = record_elements
         e = enc.message(container)
         sig = tuple((l, c) for l, n, c in ch.seen)
         if sig in done:
